@@ -137,7 +137,7 @@ def miri_shard(seed, count, maxops, profile, native_binary):
         m = re.search(r"error: (Undefined Behavior|[^\n]*leak[^\n]*|[^\n]*data race[^\n]*)[^\n]*", err)
         headline = m.group(0) if m else "miri failure"
         frames = re.findall(r"\d+: ([^\n]+)\n\s+at ([^\n]+)", err)
-        first_repo = next((f"{fn.strip()}" for fn, at in frames if at.strip().startswith("/repo/")), "?")
+        first_repo = next((f"{fn.strip()}" for fn, at in frames if at.strip().startswith(runner.REPO_PREFIX)), "?")
         reports.append({"history_seed": hseed, "index": idx, "headline": headline[:300],
                         "first_repo_frame": first_repo,
                         "native_signatures": _native_signatures(native_binary, hseed, maxops, profile)})
